@@ -494,3 +494,16 @@ def _(root):
     """property-preserving: block-wise decompression with an output cap that feeds unconsumed_tail back until it is empty"""
     sub_all(root, ('_pickle.py',), "    data = zlib.decompress(file_handle.read(), 15, length)\n",
             "    zobj = zlib.decompressobj(15)\n    data = bytearray()\n    block = file_handle.read(2 ** 16)\n    while block:\n        while block:\n            data.extend(zobj.decompress(block, 2 ** 16))\n            block = zobj.unconsumed_tail\n        block = file_handle.read(2 ** 16)\n    data.extend(zobj.flush())\n    data = bytes(data)\n")
+
+
+@V('keygen-self-dropped-for-index-zero-with-rebasing')
+def _(root):
+    """the instance may be ignored by index as well - when the index set is re-based after the cut (each index one lower, 0 gone)"""
+    sub_all(root, ('_inspect.py',), "        if _bound and explicitly_named[0] in ignored:\n            user_args = user_args[1:]                # remove 'self' instance\n",
+            "        if _bound and (explicitly_named[0] in names_to_ignore or 0 in index_to_ignore):\n            index_to_ignore = set(i-1 for i in index_to_ignore if i > 0)\n            user_args = user_args[1:]                # remove 'self' instance\n")
+
+
+@V('dir-clear-removes-the-listed-entries')
+def _(root):
+    """property-preserving apart from sparing foreign files: clear() removes every entry the lister lists, as listed"""
+    sub_all(root, ('_archives.py',), "        rmtree(self.__state__['id'], self=False, ignore_errors=True)\n", "        for _dir in self._lsdir():\n            rmtree(_dir, self=True, ignore_errors=True)\n")
